@@ -1,8 +1,8 @@
 use crate::traits::compression::Decompress;
-use anyhow::Result;
-use brotli::Decompressor;
+use anyhow::{bail, Result};
+use brotli::enc::StandardAlloc;
+use brotli::{BrotliDecompressStream, BrotliResult, BrotliState};
 use bytes::Bytes;
-use std::io::Read;
 
 const BUFFER_SIZE: usize = 4096;
 
@@ -15,9 +15,41 @@ pub struct BrotliDecomp;
 
 impl Decompress for BrotliDecomp {
     fn decompress(&self, input: Bytes) -> Result<Bytes> {
+        // A strict decoder refuses the "large window" extension, where a stream header of a few
+        // bytes is enough to make the decoder allocate a ring buffer of up to 1GiB.
+        let mut state = BrotliState::new_strict(
+            StandardAlloc::default(),
+            StandardAlloc::default(),
+            StandardAlloc::default(),
+        );
         let mut buf = Vec::new();
-        let mut decoder = Decompressor::new(&input[..], BUFFER_SIZE);
-        decoder.read_to_end(&mut buf)?;
+        let mut chunk = [0u8; BUFFER_SIZE];
+        let mut available_in = input.len();
+        let mut input_offset = 0;
+        let mut total_out = 0;
+
+        loop {
+            let mut available_out = chunk.len();
+            let mut output_offset = 0;
+            let result = BrotliDecompressStream(
+                &mut available_in,
+                &mut input_offset,
+                &input[..],
+                &mut available_out,
+                &mut output_offset,
+                &mut chunk,
+                &mut total_out,
+                &mut state,
+            );
+            buf.extend_from_slice(&chunk[..output_offset]);
+
+            match result {
+                BrotliResult::ResultSuccess => break,
+                BrotliResult::NeedsMoreOutput => (),
+                BrotliResult::NeedsMoreInput => bail!("Truncated brotli stream"),
+                BrotliResult::ResultFailure => bail!("Invalid brotli stream"),
+            }
+        }
 
         Ok(buf.into())
     }
